@@ -37,10 +37,12 @@ def tasks():
         return f
 
     def main(kind, path, nested):
-        if nested in ("lazy-kw", "lazy-pos"):
+        if nested in ("lazy-kw", "lazy-pos", "lazy-nested"):
             # the producer is main itself: its cached result is a lazy call holding the external value (by keyword / by position)
             COUNT["make"] += 1
             v = create(kind, path)
+            if nested == "lazy-nested":
+                return REG["use"](REG["use"](v))  # the external value sits in a sub-expression of the cached lazy call
             return REG["use"](f=v) if nested == "lazy-kw" else REG["use"](v)
         v = REG["make"](kind, path)
         if nested == "list":
@@ -267,7 +269,7 @@ def run(ctx):
 
     seams.template_db()
     L = ctx.pick(2, 3)
-    nests = ctx.pick(["plain", "list", "lazy-kw"], ["plain", "list", "dict", "lazy-kw", "lazy-pos"])
+    nests = ctx.pick(["plain", "list", "lazy-kw", "lazy-nested"], ["plain", "list", "dict", "lazy-kw", "lazy-pos", "lazy-nested"])
     items = [(k, n, op, L) for k in KINDS for n in nests for op in OPS + (NESTED_OPS if "Dir" in k else []) if op != "none"]
     res = ctx.pmap(work, ctx.rotate(items), chunksize=1)
     check_harness_errors(res)
